@@ -25,6 +25,29 @@ def run(tier):
     # element-construction helpers: exact construct / destroy ranges (loops unrolled)
     nexact = ownrules.rollback_exact(rep, ownrules.module(wd, 1), "D=1", "R08", 3 if tier == "quick" else 5)
     rep.need_instances("R08.exact helpers interpreted with unrolled loops", nexact, 9)
+    # whether elements are constructed does not depend on their destructor: with an element type that differs from the observable one only in being
+    # trivially destructible, every operation reaches the same element-construction primitives on its normal paths (destruction steps may vanish)
+    base1 = ownrules.module(wd, 1)
+    res1 = ownrules.analyse(base1, rep)
+    modt = ownrules.module(wd, 1, prelude="#define TRACKED_TRIVIAL_DTOR 1", tag="D1_tdtor")
+    rest = ownrules.analyse(modt, rep)
+    ncmp = 0
+    for n in sorted(res1):
+        if n not in rest:
+            continue
+
+        def ctor_families(traces):
+            return sorted({ownrules.thrower_key(("construct", e[1])) for r in traces if r["outcome"] == "ret" for e in r["events"] if e[0] == "construct"})
+        a_, b_ = ctor_families(res1[n]), ctor_families(rest[n])
+        key = "R08.ctor-indep@%s" % n
+        ncmp += 1
+        if a_ != b_:
+            rep.violated(key, "R08.ctor-indep", "%s (D=1): with a trivially destructible element (not trivially default constructible) the element-construction steps "
+                         "on the normal paths are %s, with the non-trivially destructible element they are %s: construction depends on the destructor's triviality"
+                         % (base1.ops[n]["body"], b_ or "none", a_ or "none"), dict(op=n, with_destructor=a_, trivially_destructible=b_))
+        else:
+            rep.ok(key + "#D=1", "R08.ctor-indep", dict(constructs=a_))
+    rep.need_instances("R08.ctor-indep comparisons", ncmp, 40)
     # trivial element type
     mod = ownrules.module(wd, 2, prelude="#define TRACKED_TRIVIAL 1", tag="D2_int")
     res = ownrules.analyse(mod, rep)
